@@ -1,1 +1,20 @@
-import RosedVerif.Model.Ops
+/-
+C15 — Definitions table aligns all definitions at one cluster column.
+(first instalment; the per-paragraph shape follows in CompositeLemmas)
+-/
+import RosedVerif.Model.InstAFacts
+namespace RosedVerif.Props
+open RosedVerif
+
+/-- an empty definitions list produces no output: the editor is returned unchanged -/
+theorem C15_empty {α : Type} [DecidableEq α] (cx : Ctx α) (ed : Editor α) (p w : Int) (o : Options α) :
+    ed.insertDefTableOpts cx p [] w o = .ok ed := by
+  simp [Editor.insertDefTableOpts, List.foldlM]
+  rfl
+
+/-- the Options stored on the result are the receiver's -/
+theorem C15_opts (ed r : Editor Int) (p : Int) (d : List (List Int × List Int)) (w : Int) (o : Options Int)
+    (h : ed.insertDefTableOpts cxA p d w o = .ok r) : r.opts = ed.opts :=
+  insertDefTableOpts_opts cxA ed r p d w o h
+
+end RosedVerif.Props
